@@ -58,6 +58,7 @@ type Violation struct {
 	Entry     string     `json:"entry"`
 	Stack     []string   `json:"stack,omitempty"`
 	EnvChoice bool       `json:"env_choice"` // path took a non-default engine-side (stub) decision
+	SchedDep  bool       `json:"sched_dep"`  // path took a scheduler/select decision a native run cannot be forced into
 	Unreached string     `json:"unreached,omitempty"` // cross-path: this expected witness label was never reached
 }
 
@@ -98,6 +99,10 @@ type Engine struct {
 	EntryName string
 	KFOpen    map[string]bool
 	Overrides map[string]*ssa.Function
+	desNow      int64
+	desTimers   []*xchan
+	TimersFired int
+	pathNondet  bool // the path took a scheduler / select decision the native run cannot be forced into
 
 	// results
 	Paths        int
@@ -670,7 +675,7 @@ func (e *Engine) violation(label, kf string, inRegion bool, panicMsg string, q [
 	if e.z.check(q) != "sat" {
 		panic(infraError{"violation witness query not sat: " + label})
 	}
-	v := Violation{Label: label, KF: kf, InRegion: inRegion, Panic: panicMsg, Trail: e.trailChoices(), API: e.concretiseAPI(), Entry: e.EntryName, EnvChoice: e.envChoice}
+	v := Violation{Label: label, KF: kf, InRegion: inRegion, Panic: panicMsg, Trail: e.trailChoices(), API: e.concretiseAPI(), Entry: e.EntryName, EnvChoice: e.envChoice, SchedDep: e.pathNondet}
 	if panicMsg != "" {
 		v.Stack = stackStrings()
 		if len(e.panicStack) > 0 {
@@ -682,7 +687,7 @@ func (e *Engine) violation(label, kf string, inRegion bool, panicMsg string, q [
 
 // endPath records a sample of the completed path (model-concretised API values + observations).
 func (e *Engine) endPath() {
-	if len(e.Samples) >= e.SampleN {
+	if len(e.Samples) >= e.SampleN || e.pathNondet && e.Params["SCHED"] != 1 {
 		return
 	}
 	// spread samples: take path k if k is among the first few or hits a power-ish stride
@@ -772,6 +777,9 @@ func (e *Engine) resetRun() {
 	e.observes = e.observes[:0]
 	e.reachedNow = e.reachedNow[:0]
 	e.envChoice = false
+	e.pathNondet = false
+	e.desNow = 0
+	e.desTimers = nil
 	e.pending = nil
 	e.panicStack = nil
 	e.rwReaders = map[*value]int{}
